@@ -3,6 +3,7 @@ package polynomial
 import (
 	"encoding/binary"
 	"errors"
+	"fmt"
 	"io"
 
 	"github.com/cronokirby/saferith"
@@ -184,10 +185,16 @@ func EmptyExponent(group curve.Curve) *Exponent {
 	return &Exponent{group: group}
 }
 
-func (e *Exponent) UnmarshalBinary(data []byte) error {
+func (e *Exponent) UnmarshalBinary(data []byte) (err error) {
 	if e == nil || e.group == nil {
 		return errors.New("can't unmarshal Exponent with no group")
 	}
+	// the decoder panics on some malformed inputs (e.g. a null coefficient)
+	defer func() {
+		if r := recover(); r != nil {
+			err = fmt.Errorf("malformed Exponent: %v", r)
+		}
+	}()
 	group := e.group
 	if len(data) < 4 {
 		return errors.New("data is too short to contain an Exponent")
